@@ -17,6 +17,7 @@ Require Import V.Proofs.AppenderSteps.
 Require Import V.Proofs.AppenderFaa.
 Require Import V.Proofs.AppenderRotate.
 Require Import V.Proofs.AppenderSystem.
+Require Import V.Proofs.AppenderInv2.
 From Coq Require Import ZifyBool.
 Open Scope Z_scope.
 
@@ -174,4 +175,74 @@ Section Q.
          nth (e_j e) (p_res l) Panic = (if e_b e <=? TL c then Ok (g * TL c + e_b e) else Err AdminAction)).
   Proof. intros I He. destruct (iv_ent c s gh P I g e He) as (_ & _ & _ & _ & l & HP & _ & _ & Hdone).
     exists l. split; [assumption|]. intros Hlt. apply (Hdone Hlt). Qed.
+
+  (* ---- with the second layer ---- *)
+
+  (* an accepted offer has a claim inside a term, and the returned position is the end of that claim *)
+  Theorem accepted_has_claim s gh P t l j pos : AppInv c s gh P -> AppInv2 c s gh P -> P t = Some l ->
+    nth_error (p_res l) j = Some (Ok pos) ->
+    exists g e, In e (g_claims gh g) /\ e_t e = t /\ e_j e = j /\ e_b e <= TL c /\ pos = g * TL c + e_b e.
+  Proof. intros I J HP Hn. destruct (r_okent c s gh P J t l j pos HP Hn) as (g & e & He & Ht & Hj).
+    exists g, e. split; [assumption|]. split; [assumption|]. split; [assumption|].
+    destruct (iv_ent c s gh P I g e He) as (_ & _ & _ & _ & l0 & HP0 & _ & _ & Hdone).
+    rewrite Ht, HP in HP0. inversion HP0; subst l0.
+    assert (Hlt : (j < length (p_res l))%nat) by (apply nth_error_Some; congruence).
+    rewrite Hj in Hdone. destruct (Hdone Hlt) as (D & _).
+    rewrite (nth_error_nth _ _ _ Hn) in D. destruct (e_b e <=? TL c) eqn:E; [|discriminate].
+    inversion D. split; [lia | reflexivity]. Qed.
+
+  (* every answer is a position, a retry (AdminAction) or back pressure; nobody panicked *)
+  Theorem answers_ok s gh P t l r : AppInv2 c s gh P -> P t = Some l -> (In r (p_res l) -> res_okP r) /\ p_pc l <> PPanicked.
+  Proof. intros J HP. split; [apply (r_resok c s gh P J t l r HP) | apply (r_nopanic c s gh P J t l HP)]. Qed.
+
+  (* the positions one publisher was given increase in its offer order *)
+  Theorem positions_increasing s gh P t l j j' pos pos' : AppInv c s gh P -> AppInv2 c s gh P -> P t = Some l ->
+    (j < j')%nat -> nth_error (p_res l) j = Some (Ok pos) -> nth_error (p_res l) j' = Some (Ok pos') -> pos < pos'.
+  Proof. intros I J HP Hlt Hn Hn'.
+    destruct (accepted_has_claim s gh P t l j pos I J HP Hn) as (g & e & He & Ht & Hj & Hb & ->).
+    destruct (accepted_has_claim s gh P t l j' pos' I J HP Hn') as (g' & e' & He' & Ht' & Hj' & Hb' & ->).
+    apply (r_order c s gh P J g g' e e'); auto; congruence. Qed.
+
+  (* two different claims inside a term (of any two publishers, any generations) end at different positions *)
+  Theorem positions_distinct s gh P g g' e e' : AppInv c s gh P ->
+    In e (g_claims gh g) -> In e' (g_claims gh g') -> e_b e <= TL c -> e_b e' <= TL c ->
+    g * TL c + e_b e = g' * TL c + e_b e' -> g = g' /\ e = e'.
+  Proof. intros I He He' Hb Hb' Heq. pose proof (iv_A c s gh P I) as A.
+    destruct (iv_ent c s gh P I g e He) as (Hn0 & Ha & _ & Hbe & _).
+    destruct (iv_ent c s gh P I g' e' He') as (Hn0' & Ha' & _ & Hbe' & _).
+    pose proof (required_pos c (zlen (e_msg e)) W ltac:(unfold zlen; lia)) as (R1 & _).
+    pose proof (required_pos c (zlen (e_msg e')) W ltac:(unfold zlen; lia)) as (R1' & _).
+    destruct (TL_bounds c W) as (TB & _).
+    assert (g = g') by nia. subst g'. split; [reflexivity|].
+    destruct (iv_chain_all c s gh A g Hn0) as (hi & Hc & _).
+    destruct (chain_disjoint _ _ _ e e' Hc He He') as [E | [D | D]]; [assumption | |];
+      destruct (chain_le _ _ _ Hc) as (_ & L); destruct (L e He) as (_ & X & _); destruct (L e' He') as (_ & X' & _); lia. Qed.
+
+  (* at quiescence the log is not mid-rotation, the active term has not been tripped, and the generations that
+     were filled (tripped) are exactly those before the active term count: each filled term rotated exactly once *)
+  Theorem quiescent_rotation s gh P : AppInv c s gh P -> AppInv2 c s gh P -> quiescent P ->
+    tg c s ((sh_count s + 1) mod 3) = sh_count s - 2 /\
+    toff s (sh_count s mod 3) <= TL c /\
+    (forall g, c_n0 c <= g -> (tripped c gh g <-> g < sh_count s)) /\
+    (forall g, sh_count s < g -> g_claims gh g = []).
+  Proof. intros I J Q. pose proof (iv_A c s gh P I) as A.
+    assert (Hnr : tg c s ((sh_count s + 1) mod 3) = sh_count s - 2).
+    { destruct (iv_next c s gh A) as [X | X]; [assumption|]. exfalso.
+      destruct (r_rot c s gh P J X) as (t & l & HP & Hpc & _). rewrite (Q t l HP) in Hpc. discriminate. }
+    assert (Hnt : ~ tripped c gh (sh_count s)).
+    { intros X. destruct (r_trip c s gh P J X) as (t & l & HP & _ & [Hp | Hp]); rewrite (Q t l HP) in Hp; discriminate. }
+    pose proof (iv_count c s gh A) as Hc.
+    assert (Ha : 0 <= sh_count s mod 3 < 3) by (apply Z.mod_pos_bound; lia).
+    split; [assumption|]. split; [|split].
+    - destruct (Z_le_gt_dec (toff s (sh_count s mod 3)) (TL c)); [assumption|]. exfalso. apply Hnt.
+      pose proof (iv_chain c s gh A _ Ha) as Hch. rewrite (iv_act c s gh A) in Hch. specialize (Hch ltac:(lia)).
+      pose proof (wf_off0 c W) as (Ho0 & _).
+      assert (Hb : base c (sh_count s) <= TL c) by (unfold base; destruct (_ =? _); destruct (TL_bounds c W); lia).
+      destruct (chain_last _ _ _ Hch ltac:(lia)) as (e & He & Hbe). exists e. split; [assumption | lia].
+    - intros g Hg. split.
+      + intros X. destruct (Z_lt_ge_dec g (sh_count s)); [assumption|]. exfalso.
+        destruct (Z.eq_dec g (sh_count s)) as [-> | Hne]; [contradiction|].
+        destruct X as (e & He & _). rewrite (r_future c s gh P J g) in He by lia. destruct He.
+      + intros X. apply (iv_trip c s gh A). lia.
+    - apply (r_future c s gh P J). Qed.
 End Q.
